@@ -27,6 +27,8 @@ type fwStub struct {
 
 var fwSources = []lint.LintSource{lint.RFC5280, lint.CABFBaselineRequirements, lint.CABFSMIMEBaselineRequirements, lint.CABFCSBaselineRequirements}
 
+var zeroTime time.Time
+
 var fwNames = []string{"e_stub_a", "w_stub_b", "n_stub_c", "e_stub_d"}
 
 // fwStatus: an arbitrary one of the seven defined statuses.
@@ -223,4 +225,81 @@ func VerifFrameworkOrder() {
 		zz.Assert(last.What == "result" && last.Inst == interface{}(res), "the reported result is the very object the rule body returned")
 		zz.Assert(res.Status == st.status && res.Details == st.details, "status and details are exactly what the rule body returned")
 	}
+}
+
+type fwObj struct {
+	c *x509.Certificate
+	r *x509.RevocationList
+	o *ocsp.Response
+}
+
+func fwObject(kind int) *fwObj {
+	switch kind {
+	case 0:
+		return &fwObj{c: zz.Lazy[x509.Certificate]("c")}
+	case 1:
+		return &fwObj{r: zz.Lazy[x509.RevocationList]("crl")}
+	}
+	return &fwObj{o: zz.Lazy[ocsp.Response]("ocsp")}
+}
+
+func fwRun(kind int, o *fwObj, r lint.Registry) *ResultSet {
+	switch kind {
+	case 0:
+		return LintCertificateEx(o.c, r)
+	case 1:
+		return LintRevocationListEx(o.r, r)
+	}
+	return LintOcspResponseEx(o.o, r)
+}
+
+// VerifC07Independence: linting one object with a registry and with any
+// registry filtered from it (include list chosen arbitrarily) gives the same
+// status and details for every selected lint, nothing for the others, and the
+// filtered run raises no flag the full run does not raise.
+func VerifC07Independence() {
+	kind := zz.Param("fw.kind", 0)
+	k := zz.Param("fw.k", 2)
+	r, stubs := fwSetup(kind, k, false, false, kind == 0)
+	var inc []string
+	sel := make([]bool, k)
+	for i, st := range stubs {
+		sel[i] = zz.Bool()
+		if sel[i] {
+			inc = append(inc, st.name)
+		}
+	}
+	if len(inc) == 0 {
+		// an empty filter returns the registry itself; nothing to compare
+		return
+	}
+	fr, err := r.Filter(lint.FilterOptions{IncludeNames: inc})
+	zz.Assert(err == nil && fr != nil, "filtering by registered names succeeds")
+	if err != nil || fr == nil {
+		return
+	}
+	obj := fwObject(kind)
+	full := fwRun(kind, obj, r)
+	part := fwRun(kind, obj, fr)
+	zz.Assert(full != nil && part != nil, "both runs return a result set")
+	if full == nil || part == nil {
+		return
+	}
+	for i, st := range stubs {
+		f, p := full.Results[st.name], part.Results[st.name]
+		if sel[i] {
+			zz.Cover("selected lint")
+			zz.Assert(f != nil && p != nil, "a selected lint has a result in both runs")
+			if f != nil && p != nil {
+				zz.Assert(f.Status == p.Status && f.Details == p.Details, "a selected lint gets the same status and details with the filtered and the full registry")
+			}
+		} else {
+			zz.Cover("unselected lint")
+			zz.Assert(p == nil, "an unselected lint has no result in the filtered run")
+		}
+	}
+	zz.Assert(zz.Implies(part.NoticesPresent, full.NoticesPresent), "a notice flag raised by the filtered run is raised by the full run")
+	zz.Assert(zz.Implies(part.WarningsPresent, full.WarningsPresent), "a warning flag raised by the filtered run is raised by the full run")
+	zz.Assert(zz.Implies(part.ErrorsPresent, full.ErrorsPresent), "an error flag raised by the filtered run is raised by the full run")
+	zz.Assert(zz.Implies(part.FatalsPresent, full.FatalsPresent), "a fatal flag raised by the filtered run is raised by the full run")
 }
